@@ -567,6 +567,9 @@ func c19BatchUses(t *testing.T, out *vh.Out) {
 // then spends one use of C; thread 0 continues. The decrement
 // must survive: C authorises n requests in total. Op line: orphanrace <n> => uses:<authorised requests in total>
 func c19OrphanRace(t *testing.T, out *vh.Out) {
+	// where thread 0 is held: after the orphaning loop's first read of C's entry (outside C's lock), or after the re-read
+	// inside clearParent (with C's lock held: a use of C must then WAIT, not slip through)
+	for _, at := range []string{"revokeInternal", "clearParent"} {
 	for n := 2; n <= 3; n++ {
 		p, c, root, _ := c19Setup(t)
 		par := vhCreateToken(t, c, root, map[string]any{"ttl": "2h", "policies": []string{"root"}})
@@ -578,7 +581,7 @@ func c19OrphanRace(t *testing.T, out *vh.Out) {
 		salted := c19Salted(t, c, child)
 		out.Reset()
 		// thread 0: the revocation of P, held right after the orphaning loop has READ C's entry (outside C's lock)
-		hit, release := p.HoldAfterGet("sys/token/id/"+salted, "revokeInternal")
+		hit, release := p.HoldAfterGet("sys/token/id/"+salted, at)
 		done0 := make(chan string, 1)
 		go func() {
 			done0 <- vh.Catch(func() string {
@@ -592,10 +595,22 @@ func c19OrphanRace(t *testing.T, out *vh.Out) {
 			held = true
 		case <-time.After(3 * time.Second):
 		}
-		// thread 1: one use of C while thread 0 holds its copy
-		use1, _ := vhReq(c, logical.ReadOperation, "auth/token/lookup-self", child, nil)
+		// thread 1: one use of C while thread 0 holds its copy (if thread 0 holds C's lock the use waits for the release)
+		done1 := make(chan string, 1)
+		go func() {
+			cl, _ := vhReq(c, logical.ReadOperation, "auth/token/lookup-self", child, nil)
+			done1 <- cl
+		}()
+		use1 := ""
+		select {
+		case use1 = <-done1:
+		case <-time.After(400 * time.Millisecond):
+		}
 		release()
 		r0 := <-done0
+		if use1 == "" {
+			use1 = <-done1
+		}
 		if !held || r0 != "ok" {
 			t.Fatalf("orphanrace: revocation of the parent: held=%v result=%s", held, r0)
 		}
@@ -613,8 +628,9 @@ func c19OrphanRace(t *testing.T, out *vh.Out) {
 		if total > n {
 			viol = fmt.Sprintf("!VIOL:a token created with num_uses=%d authorised %d requests: a use spent while its parent was being revoked (orphaning rewrite of the entry) was lost#use-count-lost-update-on-orphaning", n, total)
 		}
-		out.Op(fmt.Sprintf("uses:%d%s", total, viol), "orphanrace", vh.I(int64(n)))
+		out.Op(fmt.Sprintf("uses:%d%s", total, viol), "orphanrace", vh.I(int64(n)), at)
 		_ = c.Shutdown()
+	}
 	}
 }
 
